@@ -147,6 +147,15 @@ def fuse_comprehensions(t: "T") -> "T":
     if t.op == "item" and isinstance(t.name, int) and args and args[0].op in ("list", "tuple") and 0 <= t.name < len(args[0].args) and \
             not any(a.op == "star" for a in args[0].args):
         return args[0].args[t.name]
+    # constant position / constant prefix or suffix of a literal sequence:  [a, b, c][1] == b,  [a, b, c][:2] == [a, b]
+    if t.op == "sub" and len(args) == 2 and args[0].op in ("list", "tuple") and not any(a.op == "star" for a in args[0].args):
+        lit, ix = args
+        if ix.op == "const" and isinstance(ix.name, int) and not isinstance(ix.name, bool) and -len(lit.args) <= ix.name < len(lit.args):
+            return lit.args[ix.name]
+        if ix.op == "slice" and all(b_.op == "const" and (b_.name is None or (isinstance(b_.name, int) and not isinstance(b_.name, bool)))
+                                    for b_ in ix.args):
+            lo, hi, st = (b_.name for b_ in ix.args)
+            return T(lit.op, lit.name, list(lit.args)[slice(lo, hi, st)], node=t.node)
     if t.op == "elem" and args and args[0].op == "comp" and len(args[0].args) == 2:
         return args[0].args[0]
     # component k of an element of zip(A0, A1, ...) is an element of Ak
